@@ -54,7 +54,11 @@ type L1Env struct {
 var longDenomA = "move/" + strings.Repeat("0123456789abcdef", 7) + "xyz" + "AAAAAAAA"
 var longDenomB = "move/" + strings.Repeat("0123456789abcdef", 7) + "xyz" + "BBBBBBBB"
 
-var defaultDenoms = []string{"uinit", "uusdc", "ibc/27394FB092D2ECCD56123C74F36E4C1F926001CEADA9CA97EA622B25F41E5EB2", longDenomA, longDenomB}
+// lookalikeDenom: a valid L1 bank denom that has the shape of a derived L2 denom ("l2/" + 64 hex characters) — in fact the
+// very string bridge 1 derives for uinit. It is a token like any other and gets its own derived L2 name.
+var lookalikeDenom = ref.L2Denom(1, "uinit")
+
+var defaultDenoms = []string{"uinit", "uusdc", "ibc/27394FB092D2ECCD56123C74F36E4C1F926001CEADA9CA97EA622B25F41E5EB2", longDenomA, longDenomB, lookalikeDenom}
 
 const userFunds = 1_000_000_000_000
 
